@@ -50,6 +50,10 @@ def rnd_token(rng, depth=0):
         inner = [rnd_token(rng, depth + 1) for _ in range(k)]
         sep = rng.choice([' ', ' ', '  ', '\t', ' \n '])
         body = sep.join(inner)
+        if rng.random() < 0.15 and len(inner) >= 2 and not any(t.startswith('[') for t in inner):
+            # a comment in the middle: it ends at the end of the line - a line feed, a bare carriage return, or both
+            cut = rng.randrange(1, len(inner))
+            body = ' '.join(inner[:cut]) + rng.choice([' # one\n', ' # one\r', ' # one\r\n', ' #\n', ' # a # b\r', '#x\r']) + ' '.join(inner[cut:])
         if rng.random() < 0.1 and inner:
             body += ' # comment ] [ here\n'
         return '[' + body + ']'
